@@ -145,3 +145,17 @@ func helperSort(ss []string) { sort.Strings(ss) } // want shared-data-read-only
 func (c Obj) ViaHelper() { helperSort(c.Tags) } // clean
 
 func (c Obj) Joined() string { return strings.Join(c.Tags, ",") } // clean
+
+type Req struct{ Header map[string][]string }
+
+type Client struct{ Header map[string][]string }
+
+func (c *Client) Alias(r *Req) { r.Header = c.Header } // want shared-data-read-only
+
+func (c *Client) Clone(r *Req) { // clean
+	h := make(map[string][]string, len(c.Header))
+	for k, v := range c.Header {
+		h[k] = v
+	}
+	r.Header = h
+}
